@@ -30,6 +30,7 @@ inline int check_main(int argc, char **argv, const char *prop, std::vector<Sub> 
         if (only && sub.name != only) continue;
         Runner r; r.name = std::string(prop) + "_" + sub.name; r.nshards = nshards;
         r.deadline_s = (tier.thorough ? sub.budget_thorough : sub.budget_quick) * scale;
+        if (const char *ho = argval(argc, argv, "--hash-out")) r.hash_out = std::string(ho) + "." + sub.name;
         sub.setup(r, tier);
         if (replay) {
             uint64_t idx = strtoull(replay, nullptr, 10);
